@@ -50,6 +50,9 @@ def execute(cfg, prefix, on_point=None, line=False, seam='fork'):
     full = (1 << R) - 1
 
     def pred(row):
+        if cfg.get('truthy'):
+            # a predicate answering with truthy / falsy values that are not bools (a url string, id % 2)
+            return 'selected' if mask >> row['i'] & 1 else 0
         return bool(mask >> row['i'] & 1)
     predicate = None if (mask == full and cfg.get('nopred')) else pred
     try:
@@ -357,6 +360,9 @@ def tasks(tier):
         # rows that come back from the workers without any field
         for N_, R_, mask_, wipe_ in ((1, 2, 3, 1), (1, 3, 7, 2), (1, 3, 5, 1), (2, 2, 3, 2), (2, 3, 6, 2)):
             out.append({'cfg': {'N': N_, 'R': R_, 'mask': mask_, 'wipe': wipe_}, 'mode': 'stateful'})
+        for N_, R_, mask_ in ((1, 1, 1), (1, 2, 2), (2, 2, 3), (2, 3, 5)):
+            out.append({'cfg': {'N': N_, 'R': R_, 'mask': mask_, 'truthy': True}, 'mode': 'stateful'})
+        out.append({'cfg': {'N': 1, 'R': 2, 'mask': 1, 'truthy': True}, 'mode': 'stateful', 'seam': 'flow'})
         out.append({'cfg': {'N': 1, 'R': 1, 'mask': 1}, 'mode': 'stateful', 'seam': 'chain2'})
         out.append({'cfg': {'N': 1, 'R': 2, 'mask': 3}, 'mode': 'stateful', 'seam': 'chain2'})
         out.append({'cfg': {'N': 1, 'R': 1, 'mask': 1}, 'mode': 'line-dev', 'bound': 1, 'seam': 'chain2'})
@@ -372,6 +378,8 @@ def tasks(tier):
             for R_ in (1, 2, 3):
                 for mask_ in range(1, 1 << R_):
                     out.append({'cfg': {'N': N_, 'R': R_, 'mask': mask_, 'slow_upstream': True}, 'mode': 'stateful', 'max_exec': 250000})
+        for N_, R_, mask_ in ((1, 1, 1), (1, 2, 2), (2, 2, 3), (2, 3, 5), (3, 3, 7)):
+            out.append({'cfg': {'N': N_, 'R': R_, 'mask': mask_, 'truthy': True}, 'mode': 'stateful', 'max_exec': 250000})
         out.append({'cfg': {'N': 1, 'R': 2, 'mask': 3}, 'mode': 'stateful', 'seam': 'chain2'})
         out.append({'cfg': {'N': 1, 'R': 3, 'mask': 5}, 'mode': 'stateful', 'seam': 'chain2', 'max_exec': 250000})
         out.append({'cfg': {'N': 2, 'R': 2, 'mask': 3}, 'mode': 'stateful', 'seam': 'chain2', 'max_exec': 250000})
